@@ -164,84 +164,91 @@ end
 section
 variable {σ : Type} (exec : σ → Cmd → σ × Resp) (env : Env)
 
-theorem runCalls_cons_value {s s' : σ} {c : Call} {v : LuaVal} (cs : List Call)
-    (h : doCall exec s c.prot (c.args.map (AExpr.eval env)) = .value s' v) :
-    runCalls exec env s (c :: cs) =
-      ⟨(runCalls exec env s' cs).state, v :: (runCalls exec env s' cs).results,
-       (runCalls exec env s' cs).started + 1, (runCalls exec env s' cs).halt⟩ := by
-  simp [runCalls, h]
-
 /-- how far a script runs: all statements if nothing halted it, otherwise up to and including the
-    halting one; the values of the completed statements are kept in order -/
-theorem run_started (s : σ) (cs : List Call) :
-    let r := runCalls exec env s cs
-    (r.halt = none → r.started = cs.length ∧ r.results.length = cs.length) ∧
-    (r.halt ≠ none → r.results.length + 1 = r.started ∧ r.started ≤ cs.length) := by
-  induction cs generalizing s with
-  | nil => simp [runCalls]
+    halting one; the values of the completed statements are kept in order (after those it started with) -/
+theorem run_started (acc : List LuaVal) (s : σ) (cs : List Call) :
+    let r := runCallsA exec env acc s cs
+    (r.halt = none → r.started = cs.length ∧ r.results.length = acc.length + cs.length) ∧
+    (r.halt ≠ none → r.results.length + 1 = acc.length + r.started ∧ r.started ≤ cs.length) := by
+  induction cs generalizing s acc with
+  | nil => simp [runCallsA]
   | cons c cs ih =>
-    simp only [runCalls]
-    cases hd : doCall exec s c.prot (c.args.map (AExpr.eval env)) with
+    simp only [runCallsA]
+    cases hd : doCall exec s c.prot (c.args.map (AExpr.eval env acc)) with
     | crash => simp
     | raise s' m => simp
     | value s' v =>
-      have := ih s'
-      simp only [List.length_cons, Nat.add_right_cancel_iff, Nat.add_le_add_iff_right]
-      exact this
+      have := ih (acc ++ [v]) s'
+      simp only [List.length_append, List.length_cons, List.length_nil] at this
+      simp only [List.length_cons]
+      constructor
+      · intro h; have := this.1 h; omega
+      · intro h; have := this.2 h; omega
 
 /-- sequencing: the statements after a halting one do not run; otherwise the rest runs on the state
     and with the results the first part left -/
-theorem runCalls_append (s : σ) (a b : List Call) :
-    runCalls exec env s (a ++ b) =
-      (match (runCalls exec env s a).halt with
-       | some _ => runCalls exec env s a
+theorem runCallsA_append (acc : List LuaVal) (s : σ) (a b : List Call) :
+    runCallsA exec env acc s (a ++ b) =
+      (match (runCallsA exec env acc s a).halt with
+       | some _ => runCallsA exec env acc s a
        | none =>
-         let ra := runCalls exec env s a
-         let rb := runCalls exec env ra.state b
-         ⟨rb.state, ra.results ++ rb.results, ra.started + rb.started, rb.halt⟩) := by
-  induction a generalizing s with
-  | nil => simp [runCalls]
+         let ra := runCallsA exec env acc s a
+         let rb := runCallsA exec env ra.results ra.state b
+         ⟨rb.state, rb.results, ra.started + rb.started, rb.halt⟩) := by
+  induction a generalizing s acc with
+  | nil => simp [runCallsA]
   | cons c cs ih =>
-    simp only [List.cons_append, runCalls]
-    cases hd : doCall exec s c.prot (c.args.map (AExpr.eval env)) with
+    simp only [List.cons_append, runCallsA]
+    cases hd : doCall exec s c.prot (c.args.map (AExpr.eval env acc)) with
     | crash => rfl
     | raise s' m => rfl
     | value s' v =>
-      simp only [ih s']
-      cases hh : (runCalls exec env s' cs).halt with
+      simp only [ih (acc ++ [v]) s']
+      cases hh : (runCallsA exec env (acc ++ [v]) s' cs).halt with
       | some h => simp only [hh]
-      | none => simp only [List.cons_append]; congr 1; omega
+      | none => simp only; congr 1; omega
 
-/-- the translator knows what the client path knows for this statement's words (decidable); it
-    fails exactly for the recorded findings (no table entry; SET … KEEPTTL|EXAT|PXAT; EXPIRE with
-    flags; ZRANGE … WITHSCORES — `lua_rejects_accepted_only_on`) -/
-def Knows (env : Env) (c : Call) : Bool :=
-  match c.words env with
+/-- the translator knows what the client path knows for these words (decidable); it fails exactly for the
+    recorded findings (no table entry; SET … KEEPTTL|EXAT|PXAT; EXPIRE with flags; ZRANGE … WITHSCORES —
+    `lua_rejects_accepted_only_on`) -/
+def knowsWords : Option (List Bytes) → Bool
   | some (w :: ws) => (parseLua (w :: ws)).isOk || !(parseCmd (w :: ws)).isOk
   | _ => true
 
-/-- full statement: the keyspace after a script is the keyspace after a client has sent the words
-    of the started statements one after the other (nothing is rolled back, nothing else happens) -/
+/-- as many word lists as statements were started -/
+theorem runWords_length (acc : List LuaVal) (s : σ) (cs : List Call) :
+    (runWords exec env acc s cs).length = (runCallsA exec env acc s cs).started := by
+  induction cs generalizing s acc with
+  | nil => rfl
+  | cons c cs ih =>
+    simp only [runWords, runCallsA, List.length_cons]
+    cases hd : doCall exec s c.prot (c.args.map (AExpr.eval env acc)) with
+    | crash => rfl
+    | raise s' m => rfl
+    | value s' v => simp only [ih (acc ++ [v]) s']
+
+/-- full statement: the keyspace after a script is the keyspace after a client has sent, one after the other,
+    the words its started statements evaluated to (nothing is rolled back, nothing else happens) -/
 def C16_script_effect_is_direct_prefix : Prop :=
   ∀ (σ : Type) (exec : σ → Cmd → σ × Resp) (env : Env) (s : σ) (cs : List Call),
     (runCalls exec env s cs).halt ≠ some .crash →
-    (runCalls exec env s cs).state = directEffect exec env s (cs.take (runCalls exec env s cs).started)
+    (runCalls exec env s cs).state = sendAll exec s (runWords exec env [] s cs)
 
-theorem doCall_state (s : σ) (c : Call) (hk : Knows env c = true) :
-    match doCall exec s c.prot (c.args.map (AExpr.eval env)) with
-    | .value s' _ => s' = directEffect exec env s [c]
-    | .raise s' _ => s' = directEffect exec env s [c]
+theorem doCall_state (acc : List LuaVal) (s : σ) (c : Call) (hk : knowsWords (c.words env acc) = true) :
+    match doCall exec s c.prot (c.args.map (AExpr.eval env acc)) with
+    | .value s' _ => s' = sendAll exec s [c.words env acc]
+    | .raise s' _ => s' = sendAll exec s [c.words env acc]
     | .crash => False := by
-  unfold Knows Call.words at hk
-  cases ha : argsBytes (c.args.map (AExpr.eval env)) with
-  | none => simp [doCall, ha, directEffect, Call.words]
+  unfold knowsWords Call.words at hk
+  cases ha : argsBytes (c.args.map (AExpr.eval env acc)) with
+  | none => simp [doCall, ha, sendAll, Call.words]
   | some words =>
     cases words with
-    | nil => simp [doCall, ha, directEffect, Call.words]
+    | nil => simp [doCall, ha, sendAll, Call.words]
     | cons w ws =>
       rw [ha] at hk
       simp only at hk
-      simp only [directEffect, Call.words, ha]
+      simp only [sendAll, Call.words, ha]
       cases hp : parseLua (w :: ws) with
       | ok cmd =>
         have hc := lua_agrees_partial w ws cmd hp
@@ -260,42 +267,48 @@ theorem doCall_state (s : σ) (c : Call) (hk : Knows env c = true) :
           | error _ => rfl
         cases hprot : c.prot <;> simp [doCall, ha, hp, ht, hd]
 
-theorem directEffect_append (s : σ) (a b : List Call) :
-    directEffect exec env s (a ++ b) = directEffect exec env (directEffect exec env s a) b := by
-  induction a generalizing s with
-  | nil => rfl
-  | cons c cs ih =>
-    simp only [List.cons_append, directEffect]
-    split <;> exact ih _
+theorem sendAll_cons (s : σ) (w : Option (List Bytes)) (rest : List (Option (List Bytes))) :
+    sendAll exec s (w :: rest) = sendAll exec (sendAll exec s [w]) rest := by
+  cases w with
+  | none => rfl
+  | some l => cases l <;> rfl
 
-/-- proved form: … when the translator knows every statement's command as the client path does -/
-theorem script_effect_is_direct_prefix_partial (s : σ) (cs : List Call) (hk : ∀ c ∈ cs, Knows env c = true) :
-    (runCalls exec env s cs).halt ≠ some .crash ∧
-    (runCalls exec env s cs).state = directEffect exec env s (cs.take (runCalls exec env s cs).started) := by
-  induction cs generalizing s with
-  | nil => simp [runCalls, directEffect]
+/-- proved form: … when the translator knows the command of every started statement as the client path does -/
+theorem script_effect_is_direct_prefix_partial (acc : List LuaVal) (s : σ) (cs : List Call)
+    (hk : ∀ w ∈ runWords exec env acc s cs, knowsWords w = true) :
+    (runCallsA exec env acc s cs).halt ≠ some .crash ∧
+    (runCallsA exec env acc s cs).state = sendAll exec s (runWords exec env acc s cs) := by
+  induction cs generalizing s acc with
+  | nil => simp [runCallsA, runWords, sendAll]
   | cons c cs ih =>
-    have h1 := doCall_state exec env s c (hk c (by simp))
-    simp only [runCalls]
-    cases hd : doCall exec s c.prot (c.args.map (AExpr.eval env)) with
+    have hk1 : knowsWords (c.words env acc) = true := hk _ (by simp [runWords])
+    have h1 := doCall_state exec env acc s c hk1
+    simp only [runCallsA, runWords]
+    cases hd : doCall exec s c.prot (c.args.map (AExpr.eval env acc)) with
     | crash => rw [hd] at h1; exact h1.elim
     | raise s' m =>
       rw [hd] at h1
-      simp only [ne_eq, Option.some.injEq, reduceCtorEq, not_false_eq_true, List.take_succ_cons, List.take_zero, true_and]
+      simp only [ne_eq, Option.some.injEq, reduceCtorEq, not_false_eq_true, true_and]
       exact h1
     | value s' v =>
       rw [hd] at h1
-      have := ih s' (fun x hx => hk x (by simp [hx]))
-      simp only [List.take_succ_cons]
+      have hk' : ∀ w ∈ runWords exec env (acc ++ [v]) s' cs, knowsWords w = true := by
+        intro w hw
+        apply hk
+        simp only [runWords, hd, List.mem_cons]
+        exact Or.inr hw
+      have := ih (acc ++ [v]) s' hk'
       refine ⟨this.1, ?_⟩
-      rw [this.2, h1]
-      exact (directEffect_append exec env s [c] _).symm
+      simp only
+      rw [this.2, sendAll_cons, ← h1]
 
-/-- non-vacuity: a three-statement script whose second statement raises on a wrong-type key would be
-    `Knows` throughout; here: the words of SET / GET / LPUSH statements are known to both grammars -/
-example : Knows ⟨[], []⟩ ⟨false, [.lit (.str (s2b "SET")), .lit (.str (s2b "k")), .lit (.int 5)]⟩ = true ∧
-    Knows ⟨[s2b "k"], [s2b "v"]⟩ ⟨true, [.lit (.str (s2b "lpush")), .key 1, .argv 1, .argv 2]⟩ = true ∧
-    Knows ⟨[], []⟩ ⟨true, [.lit (.str (s2b "GET"))]⟩ = true := by decide
+/-- non-vacuity: statements whose words both grammars know — SET with an integer argument, LPUSH with KEYS / ARGV,
+    a statement that passes an earlier result on -/
+example : knowsWords (Call.words ⟨[], []⟩ [] ⟨false, [.lit (.str (s2b "SET")), .lit (.str (s2b "k")), .lit (.int 5)]⟩) = true ∧
+    knowsWords (Call.words ⟨[s2b "k"], [s2b "v"]⟩ [] ⟨true, [.lit (.str (s2b "lpush")), .key 1, .argv 1, .argv 2]⟩) = true ∧
+    knowsWords (Call.words ⟨[], []⟩ [.str (s2b "old"), .int 7] ⟨true, [.lit (.str (s2b "SET")), .lit (.str (s2b "k2")), .res 0]⟩) = true ∧
+    Call.words ⟨[], []⟩ [.str (s2b "old"), .int 7] ⟨true, [.lit (.str (s2b "SET")), .lit (.str (s2b "k2")), .res 1]⟩ =
+      some [s2b "SET", s2b "k2", s2b "7"] := by decide
 
 /-- the full statement fails for a statement whose command the translator does not know: the client
     path executes it, the script does not (known finding `command-unknown-to-translator`) -/
@@ -306,43 +319,66 @@ theorem script_effect_counterexample : ¬ C16_script_effect_is_direct_prefix := 
   revert this
   decide
 
-/-- a script of `redis.pcall` statements with convertible, non-empty arguments never ends in an error:
-    every statement runs -/
-theorem pcall_script_never_raises (s : σ) (cs : List Call)
-    (h : ∀ c ∈ cs, c.prot = true ∧ ∃ w ws, c.words env = some (w :: ws)) :
-    (runCalls exec env s cs).halt = none := by
-  induction cs generalizing s with
+/-- a script of `redis.pcall` statements whose arguments evaluate to convertible, non-empty word lists never
+    ends in an error: every statement runs -/
+theorem pcall_script_never_raises (acc : List LuaVal) (s : σ) (cs : List Call)
+    (hp : ∀ c ∈ cs, c.prot = true)
+    (hw : ∀ w ∈ runWords exec env acc s cs, ∃ x xs, w = some (x :: xs)) :
+    (runCallsA exec env acc s cs).halt = none := by
+  induction cs generalizing s acc with
   | nil => rfl
   | cons c cs ih =>
-    obtain ⟨hp, w, ws, hw⟩ := h c (by simp)
-    simp only [runCalls]
-    have hv : ∃ s' v, doCall exec s c.prot (c.args.map (AExpr.eval env)) = .value s' v := by
-      unfold Call.words at hw
-      rw [hp]
+    have hpc := hp c (by simp)
+    obtain ⟨w, ws, hwc⟩ := hw (c.words env acc) (by simp [runWords])
+    simp only [runCallsA]
+    have hv : ∃ s' v, doCall exec s c.prot (c.args.map (AExpr.eval env acc)) = .value s' v := by
+      unfold Call.words at hwc
+      rw [hpc]
       cases hq : parseLua (w :: ws) with
       | ok cmd =>
-        rw [doCall_ok exec hw hq]
+        rw [doCall_ok exec hwc hq]
         rcases exec s cmd with ⟨s', r⟩
         cases r <;> exact ⟨_, _, rfl⟩
       | error e =>
-        obtain ⟨t, _, hd⟩ := pcall_refused_is_err_table exec s _ w ws e hw hq
+        obtain ⟨t, _, hd⟩ := pcall_refused_is_err_table exec s _ w ws e hwc hq
         exact ⟨_, _, hd⟩
     obtain ⟨s', v, hd⟩ := hv
     rw [hd]
-    exact ih s' (fun x hx => h x (by simp [hx]))
+    refine ih (acc ++ [v]) s' (fun x hx => hp x (by simp [hx])) ?_
+    intro w' hw'
+    apply hw
+    simp only [runWords, hd, List.mem_cons]
+    exact Or.inr hw'
 
 /-- the first raising statement ends the script; the statements before it have run, on the
     states the earlier ones left, and stay in effect -/
-theorem raise_ends_script (s : σ) (pre post : List Call) (c : Call) (s' : σ) (m : Bytes)
-    (hpre : (runCalls exec env s pre).halt = none)
-    (hc : doCall exec (runCalls exec env s pre).state c.prot (c.args.map (AExpr.eval env)) = .raise s' m) :
-    (runCalls exec env s (pre ++ c :: post)).state = s' ∧
-    (runCalls exec env s (pre ++ c :: post)).halt = some (.raised m) ∧
-    (runCalls exec env s (pre ++ c :: post)).started = pre.length + 1 ∧
-    (runCalls exec env s (pre ++ c :: post)).results = (runCalls exec env s pre).results := by
-  have hs := (run_started exec env s pre).1 hpre
-  rw [runCalls_append, hpre]
-  simp only [runCalls, hc, List.append_nil, hs.1, and_self]
+theorem raise_ends_script (acc : List LuaVal) (s : σ) (pre post : List Call) (c : Call) (s' : σ) (m : Bytes)
+    (hpre : (runCallsA exec env acc s pre).halt = none)
+    (hc : doCall exec (runCallsA exec env acc s pre).state c.prot
+        (c.args.map (AExpr.eval env (runCallsA exec env acc s pre).results)) = .raise s' m) :
+    (runCallsA exec env acc s (pre ++ c :: post)).state = s' ∧
+    (runCallsA exec env acc s (pre ++ c :: post)).halt = some (.raised m) ∧
+    (runCallsA exec env acc s (pre ++ c :: post)).started = pre.length + 1 ∧
+    (runCallsA exec env acc s (pre ++ c :: post)).results = (runCallsA exec env acc s pre).results := by
+  have hs := (run_started exec env acc s pre).1 hpre
+  rw [runCallsA_append, hpre]
+  simp only [runCallsA, hc, hs.1, and_self]
+
+/-- what a reply becomes when a later statement passes it on as an argument: a bulk reply arrives byte for
+    byte, an integer reply as its decimal digits; a status reply, a nil, an array or an error table is refused
+    (the statement raises `Invalid argument type for redis command`) -/
+theorem reply_as_argument (r : Resp) :
+    luaArgBytes (respToLua r) =
+      (match r with
+       | .bulk (some b) => some b
+       | .int i => some (intText i)
+       | _ => none) := by
+  cases r with
+  | simple s => rfl
+  | error s => rfl
+  | int i => rfl
+  | bulk b => cases b <;> rfl
+  | array a => cases a <;> rfl
 
 end
 
@@ -367,7 +403,7 @@ theorem raiseReply_code (m : Bytes) (h : hasCode m = true) : raiseReply m = .err
     execution leaves -/
 theorem call_error_reply_is_client_error (s : σ) (args : List AExpr) (w : Bytes) (ws : List Bytes) (c : Cmd)
     (t : Bytes) (ret : Ret)
-    (hargs : argsBytes (args.map (AExpr.eval env)) = some (w :: ws)) (hp : parseLua (w :: ws) = .ok c)
+    (hargs : argsBytes (args.map (AExpr.eval env [])) = some (w :: ws)) (hp : parseLua (w :: ws) = .ok c)
     (hr : (exec s c).2 = .error t) (hcode : hasCode t = true) :
     evalScript exec env s ⟨[⟨false, args⟩], ret⟩ = ((exec s c).1, some (.error t)) ∧
     directStep exec s (w :: ws) = ((exec s c).1, some (.error t)) := by
@@ -378,7 +414,7 @@ theorem call_error_reply_is_client_error (s : σ) (args : List AExpr) (w : Bytes
   rw [hx] at hcall hr
   simp only at hr
   subst hr
-  simp [evalScript, runCalls, hcall, callOutcome, raiseReply, hcode]
+  simp [evalScript, runCalls, runCallsA, hcall, callOutcome, raiseReply, hcode]
 
 /-- every error text the executor model of C01 answers starts with a code word — checked on the
     two prefixes the code base uses -/
@@ -391,13 +427,13 @@ example : hasCode (s2b "WRONGTYPE Operation against a key holding the wrong kind
 /-- full statement: `return redis.pcall(words…)` answers what the client gets for the same words -/
 def C16_pcall_reply_equals_direct : Prop :=
   ∀ (σ : Type) (exec : σ → Cmd → σ × Resp) (env : Env) (s : σ) (args : List AExpr) (w : Bytes) (ws : List Bytes) (c : Cmd),
-    argsBytes (args.map (AExpr.eval env)) = some (w :: ws) → parseLua (w :: ws) = .ok c →
+    argsBytes (args.map (AExpr.eval env [])) = some (w :: ws) → parseLua (w :: ws) = .ok c →
     evalScript exec env s ⟨[⟨true, args⟩], .res 0⟩ = ((exec s c).1, some (exec s c).2)
 
 /-- proved form: … for every reply the conversion round-trips (`ConvStable`: no nil array, no nil
     inside an array) -/
 theorem pcall_reply_equals_direct_partial (s : σ) (args : List AExpr) (w : Bytes) (ws : List Bytes) (c : Cmd)
-    (hargs : argsBytes (args.map (AExpr.eval env)) = some (w :: ws)) (hp : parseLua (w :: ws) = .ok c)
+    (hargs : argsBytes (args.map (AExpr.eval env [])) = some (w :: ws)) (hp : parseLua (w :: ws) = .ok c)
     (hst : ConvStable (exec s c).2 = true) :
     evalScript exec env s ⟨[⟨true, args⟩], .res 0⟩ = ((exec s c).1, some (exec s c).2) ∧
     directStep exec s (w :: ws) = ((exec s c).1, some (exec s c).2) := by
@@ -407,7 +443,7 @@ theorem pcall_reply_equals_direct_partial (s : σ) (args : List AExpr) (w : Byte
   rw [hx] at hcall hst
   simp only at hst
   rw [callOutcome_prot] at hcall
-  simp only [evalScript, runCalls, hcall, Ret.eval, List.getElem?_cons_zero]
+  simp only [evalScript, runCalls, runCallsA, hcall, Ret.eval, List.nil_append, List.getElem?_cons_zero]
   rw [lua_roundtrip_partial r hst]
 
 /-- the conversion is not the identity on an array that contains a nil bulk (known finding
@@ -420,10 +456,10 @@ theorem pcall_reply_counterexample : ¬ C16_pcall_reply_equals_direct := by
     [.lit (.str (s2b "LRANGE")), .lit (.str (s2b "l")), .lit (.int 0), .lit (.int (-1))]
     (s2b "LRANGE") [s2b "l", s2b "0", s2b "-1"] ⟨s2b "LRange", [.s (s2b "l"), .i 0, .i (-1)]⟩ (by decide) (by decide)
   have hl : parseLua [s2b "LRANGE", s2b "l", s2b "0", s2b "-1"] = .ok ⟨s2b "LRange", [.s (s2b "l"), .i 0, .i (-1)]⟩ := by decide
-  have ha : argsBytes (List.map (AExpr.eval ⟨[], []⟩)
+  have ha : argsBytes (List.map (AExpr.eval ⟨[], []⟩ [])
       [.lit (.str (s2b "LRANGE")), .lit (.str (s2b "l")), .lit (.int 0), .lit (.int (-1))]) =
       some [s2b "LRANGE", s2b "l", s2b "0", s2b "-1"] := by decide
-  simp only [evalScript, runCalls, doCall, ha, hl, respToLua, respToLuaL, Ret.eval, List.getElem?_cons_zero,
+  simp only [evalScript, runCalls, runCallsA, doCall, ha, hl, respToLua, respToLuaL, Ret.eval, List.nil_append, List.getElem?_cons_zero,
     luaToResp, luaToRespL, Prod.mk.injEq, true_and, Option.some.injEq, Resp.array.injEq] at this
   exact absurd this (by simp)
 
@@ -432,7 +468,8 @@ theorem pcall_reply_counterexample : ¬ C16_pcall_reply_equals_direct := by
 theorem script_reply_results_table (s : σ) (cs : List Call) (h : (runCalls exec env s cs).halt = none) :
     (evalScript exec env s ⟨cs, .tbl ((List.range cs.length).map .res)⟩).2 =
       some (.array (some (luaToRespL (runCalls exec env s cs).results))) := by
-  have hl := ((run_started exec env s cs).1 h).2
+  have hl : (runCalls exec env s cs).results.length = cs.length := by
+    simpa [runCalls] using ((run_started exec env [] s cs).1 h).2
   simp only [evalScript, h, Ret.eval, luaToResp]
   suffices hev : Ret.evalL (runCalls exec env s cs).results ((List.range cs.length).map .res) =
       (runCalls exec env s cs).results by rw [hev]
